@@ -59,6 +59,10 @@ def handleJsonVal : Handler := fun op args =>
     let env ← decEnv tbl
     let j ← Json.ofSexp j
     pure (toString (Sexp.encBool (docOK env j)))
+  | "json.simplemarshal", [tbl, v] => do
+    let env ← decEnv tbl
+    let v ← Value.ofSexp v
+    pure (resTag (fun j => toString j.toSexp) (simpleMarshal env v))
   | "json.docoku", [tbl, j] => do
     let env ← decEnv tbl
     let j ← Json.ofSexp j
